@@ -46,8 +46,48 @@ Ltac split_ifs := repeat match goal with
 
 (* a leaf of an arithmetic kernel bridge: both sides are closed expressions over Z / bool / option / pairs *)
 Ltac zleaf :=
-  try reflexivity; bool_hyps; subst;
+  try reflexivity; bool_hyps; try subst;
   first [ reflexivity | exfalso; lia | lia | repeat (f_equal; try lia) ].
 
 (* an arithmetic kernel: unfold the local definitions of both sides, split, decide *)
 Ltac zkernel := cbv zeta; split_ifs; zleaf.
+
+(* ---- splitting on tests, whatever their shape ---------------------------------------------------------------------- *)
+(* the first atom of a test built with && || negb and conditionals *)
+Ltac bool_atom c :=
+  lazymatch c with
+  | andb ?a _ => bool_atom a
+  | orb ?a _ => bool_atom a
+  | negb ?a => bool_atom a
+  | (if ?a then _ else _) => bool_atom a
+  | _ => c
+  end.
+(* split on the atoms of every test still in the goal: `a && b`, nested ifs, `negb a` with swapped branches and De Morgan
+   variants all end in the same leaves *)
+Ltac split_tests :=
+  repeat (match goal with
+          | |- context [if ?c then _ else _] => let a := bool_atom c in destruct a eqn:?
+          end; cbn [andb orb negb]).
+
+(* the innermost scrutinee of the matches in a term *)
+Ltac scrutinee t :=
+  lazymatch t with
+  | context [match ?c with _ => _ end] => scrutinee c
+  | _ => t
+  end.
+(* which scrutinees may be split on (a bridge file can exclude the terms that are merely not executed yet) *)
+Ltac splittable d := idtac.
+(* what to split on for a scrutinee (a bridge file can say: for a test `is_none o` split on o itself) *)
+Ltac subject d := d.
+Ltac split_on d := let e := subject d in splittable e; destruct e eqn:?.
+Ltac split_once :=
+  match goal with
+  | |- context [if ?c then _ else _] => let a := bool_atom c in let d := scrutinee a in split_on d
+  | |- context [match ?c with _ => _ end] => let d := scrutinee c in split_on d
+  end; cbn [andb orb negb].
+
+(* contradictory or arithmetic leaf over nat / Z *)
+Ltac arith_leaf := first [ reflexivity | exfalso; bool_hyps; try subst; lia | bool_hyps; try subst; repeat (f_equal; try lia) ].
+
+(* two boolean expressions that say the same thing in different words *)
+Ltac bool_eq := first [ reflexivity | match goal with |- ?a = ?b => destruct a eqn:?; destruct b eqn:?; arith_leaf end ].
